@@ -695,6 +695,11 @@ def run(chk: Check) -> None:
         raise AnalysisError("closure of get_nodes/exists shrank to {} "
                             "functions".format(len(cl)))
     d1_raises(chk, cl)
+    # the ladder proof above treats (type, attributes) pairs as well-typed;
+    # a segment type leaking from one recorded segment into the next breaks
+    # that (a COLLECTOR with text attributes reaches NotImplementedError)
+    from rules.c08 import d5_rearm
+    d5_rearm(chk, "C15-D1b")
     d2_partial(chk, cl)
     d2_types(chk, cl)
     chk.notes.append("closure: {} functions".format(len(cl)))
